@@ -123,7 +123,16 @@ func cmdCheck(args []string) int {
 	}
 	verdicts := dischargeAll(results, dir, timeout, *tier == "thorough", workers())
 	kfs := loadKnown(*known)
+	var assumptions []string
 	knownBy := map[string]KnownFinding{}
+	// obligations recorded as open findings of another property are reported there, not here
+	knownElsewhere := map[string]string{}
+	for _, k := range kfs {
+		if k.Property != *prop && k.Status == "known" {
+			knownElsewhere[k.Obligation] = k.Property
+			noRetry[k.Obligation] = true
+		}
+	}
 	for _, k := range kfs {
 		if k.Property == *prop && k.Status == "known" {
 			knownBy[k.Obligation] = k
@@ -199,6 +208,14 @@ func cmdCheck(args []string) int {
 			}
 			continue
 		}
+		if other, ok := knownElsewhere[o.Name]; ok {
+			if _, mine := knownBy[o.Name]; !mine {
+				if v.Status != "proved" {
+					assumptions = append(assumptions, fmt.Sprintf("obligation %s is not counted here: it is an open known finding of property %s and is reported by that property's check", o.Name, other))
+					continue
+				}
+			}
+		}
 		if k, ok := knownBy[o.Name]; ok {
 			if v.Status != "proved" {
 				fmt.Printf("KNOWN-FINDING: property=%s %s %s\n", *prop, o.Name, k.What)
@@ -253,7 +270,6 @@ func cmdCheck(args []string) int {
 			entry[e] = true
 		}
 	}
-	var assumptions []string
 	for _, e := range sortedSet(entry) {
 		assumptions = append(assumptions, "entry assumption: "+e)
 	}
